@@ -122,6 +122,17 @@ def check_conversions(ctx, res, G, rng, add):
     for i in range(7):
         add(f"geom_sph {C.fs2h(P[i])}", "K38 to_spherical (array call)", {"p": P[i].tolist()}, [r[i], ph[i], th[i]])
         add(f"geom_cart {C.fs2h([ph[i], th[i], 1.0])}", "K38 to_cartesian (default r=1)", {"phi": ph[i], "theta": th[i]}, [xb[i], yb[i], zb[i]])
+    # spherical -> Cartesian -> spherical (away from the z axis and from the branch cut of the longitude)
+    for _ in range(40 if not ctx["thorough"] else 1000):
+        ph, th, r = float(rng.uniform(-np.pi + 1e-3, np.pi - 1e-3)), float(rng.uniform(0.05, np.pi - 0.05)), float(10 ** rng.uniform(-3, 3))
+        with np.errstate(all="ignore"):
+            c = [float(np.asarray(t).ravel()[0]) for t in G.to_cartesian(ph, th, r)]
+            back = [float(np.asarray(t).ravel()[0]) for t in G.to_spherical(*c)]
+        res.evaluations += 2
+        res.count("conversion:reverse_roundtrip")
+        if not (abs(back[0] - r) <= 1e-12 * r and abs(back[1] - ph) <= 1e-10 and abs(back[2] - th) <= 1e-10):
+            res.violation("conversion:reverse_roundtrip", f"to_spherical(to_cartesian(phi={ph!r}, theta={th!r}, r={r!r})) = {back!r}",
+                          {"point": c, "phi": ph, "theta": th, "r": r})
     # to_cartesian on its own: any angles give a vector of norm |r|
     for _ in range(40 if not ctx["thorough"] else 500):
         ph, th, r = float(rng.uniform(-7, 7)), float(rng.uniform(-7, 7)), float(rng.uniform(-3, 3))
@@ -304,6 +315,7 @@ def density_case(res, S, rng, add, grid_of, data, g, kernel, axial, sigma, weigh
     thr = 0.99 if kernel == "schmidt_count" else (1 - r if axial else 1 - 2 * r)
     tie = kernel != "exponential_kamb" and bool((np.abs(prod - thr) < 1e-9).any())
     zero_count = kernel == "schmidt_count" and not bool((prod >= 0.99 - 1e-9).any())
+    zero_count_possible = kernel == "schmidt_count" and not bool((prod >= 0.99 + 1e-9).any())
     small_nonaxial = (not axial) and kernel in ("kamb_count", "linear_inverse_kamb", "square_inverse_kamb") and n <= sg * sg
     add(line, "K41 point_density", rep, ("density", X.ravel(), Y.ravel(), T.ravel(), tie or zero_count))
     if tie:
@@ -314,7 +326,7 @@ def density_case(res, S, rng, add, grid_of, data, g, kernel, axial, sigma, weigh
     if X.shape != (g, g) or T.shape != (g, g):
         res.violation("density:shape", f"shapes {X.shape}, {T.shape} for gridsteps={g}", rep)
     if not np.isfinite(T).all():
-        if zero_count:
+        if zero_count_possible:
             key = "density:nonfinite:schmidt_count:no_datum_in_any_cell"
         elif small_nonaxial:
             key = f"density:nonfinite:non_axial_n_le_sigma2:{kernel}"
@@ -362,7 +374,7 @@ def check_density(ctx, res, S, rng, add):
         return grids[g]
 
     thorough = ctx["thorough"]
-    n_cases = 60 if not thorough else 500
+    n_cases = 60 if not thorough else 1000
     gs_small = [2, 3, 5, 7, 11, 16, 21, 31]
     for k in range(n_cases):
         kernel = KERNELS[k % 5]
@@ -370,7 +382,7 @@ def check_density(ctx, res, S, rng, add):
         if thorough:
             g = int(rng.choice([5, 6, 9, 11, 16, 21, 31, 41, 51, 75, 101], p=[.12, .12, .12, .15, .14, .15, .14, .02, .02, .01, .01]))
             n = int(rng.choice([1, 2, 5, 20, 99, 100, 101, 150, 500, 2000], p=[.08, .08, .12, .15, .08, .08, .08, .15, .13, .05]))
-            n = max(1, min(n, 1_000_000 // (g * g)))  # budget of the executable model: g*g*n <= 1e6
+            n = max(1, min(n, 1_500_000 // (g * g)))  # budget of the executable model: g*g*n <= 1.5e6
         else:
             g = gs_small[k % len(gs_small)] if k >= 2 else 101
             n = int(rng.choice([1, 2, 5, 20, 101, 150, 400])) if k >= 2 else 101
